@@ -121,6 +121,12 @@ class Canon:
                     continue
                 parts.append(f"{name}={self.ref(val)}")
             return self._intern("DataWrapper(" + ", ".join(parts) + ")")
+        try:
+            import loopy as lp
+            if isinstance(v, lp.TranslationUnit):
+                return f"loopy-tu:{_loopy_key(v)}"
+        except ImportError:
+            pass
         if _is_dc(v):
             parts = [f"{name}={self.ref(val)}" for name, val in field_items(v)]
             return self._intern(
@@ -133,21 +139,15 @@ class Canon:
             return "{" + ",".join(f"{k}:{x}" for k, x in items) + "}"
         if isinstance(v, (Set, frozenset, set)):
             return "set{" + ",".join(sorted(self.ref(x) for x in v)) + "}"
-        try:
-            import loopy as lp
-            if isinstance(v, lp.TranslationUnit):
-                return f"loopy-tu:{_loopy_key(v)}"
-        except ImportError:
-            pass
         # objects without dataclass fields (stateless reduction operations,
         # plain tag instances): identified by class
-        d = getattr(v, "__dict__", None)
-        if d:
-            parts = [f"{k}={self.ref(d[k])}" for k in sorted(d)
-                     if not k.startswith("_")]
-            return f"obj:{type(v).__module__}.{type(v).__qualname__}(" \
-                + ",".join(parts) + ")"
-        return f"obj:{type(v).__module__}.{type(v).__qualname__}"
+        d = getattr(v, "__dict__", None) or {}
+        # (private attributes are per-object caches, e.g. the key builder's
+        # _pytools_persistent_hash_digest: not structure)
+        parts = [f"{k}={self.ref(d[k])}" for k in sorted(d)
+                 if not k.startswith("_")]
+        return f"obj:{type(v).__module__}.{type(v).__qualname__}(" \
+            + ",".join(parts) + ")"
 
     def text(self, obj) -> str:
         root = self.ref(obj)
@@ -198,14 +198,14 @@ def iter_nodes(root, *, into_non_equality=False):
         if id(v) in seen:
             continue
         seen[id(v)] = v
-        if _is_dc(v):
-            yield v
         try:
             import loopy as lp
             if isinstance(v, lp.TranslationUnit):
-                continue
+                continue        # opaque: identified by loopy's own key
         except ImportError:
             pass
+        if _is_dc(v):
+            yield v
         kids = list(iter_children(v))
         stack.extend(reversed(kids))
 
